@@ -187,6 +187,20 @@ theorem C15_history (rnd : Rat → Rat) (ctl : Ctl) (s : Option CState) (es : Li
   obtain ⟨u, h1, h2, _⟩ := C15_no_restamp rnd o k ctl.globalDry r.cfg r.pre r.preG r.view h r.nowMock r.nowReal e he obj hc
   exact ⟨u, h1, h2⟩
 
+/-- **C15, histories, the stamp.** Whatever earlier scans did or failed to do (refused writes included), a taint added
+    in a scan carries the Unix second of *that* scan and the configured effect; an untaint removes the first escalator
+    taint and nothing else. No value is remembered from an earlier attempt. -/
+theorem C15_history_stamp (rnd : Rat → Rat) (ctl : Ctl) (s : Option CState) (es : List Event) :
+    ∀ out ∈ runEvents rnd ctl s es, ∀ r ∈ out.recs, ∀ e ∈ r.j, ∀ obj, e.call = .updateNode obj →
+      ∃ u, u.name = obj.name ∧
+        (obj = { u with taints := u.taints ++ [newEscTaint (r.nowReal / 1000000000) r.cfg.taintEffect] } ∧ hasTaint escKey u = false ∨
+         obj = { u with taints := swapRemoveFirst (fun t => t.key == escKey) u.taints } ∧ hasTaint escKey u = true) := by
+  intro out ho r hr e he obj hc
+  obtain ⟨o, k, h, hj⟩ := runEvents_recs rnd ctl es s out ho r hr
+  rw [hj] at he
+  obtain ⟨u, h1, _, h3⟩ := C15_no_restamp rnd o k ctl.globalDry r.cfg r.pre r.preG r.view h r.nowMock r.nowReal e he obj hc
+  exact ⟨u, h1, h3⟩
+
 /-! ### The monitor's predicate is met by the objects the model writes -/
 
 /-- The object `addTaint` writes passes the monitor's `preciseUpdate` (taints compared up to order). -/
